@@ -332,9 +332,14 @@ def makeMachine() -> Callable[[_Core], _Client]:
     Stopped.upon(_Client.start).to(Connecting).returns(None)
 
     # Behavior-full state transitions:
-    @pep614(Init.upon(_Client.stop).to(Stopped))
     @pep614(Stopped.upon(_Client.stop).to(Stopped))
     def immediateStop(c: _Client, s: _Core) -> Deferred[None]:
+        return succeed(None)
+
+    @pep614(Init.upon(_Client.stop).to(Stopped))
+    def stopBeforeStart(c: _Client, s: _Core) -> Deferred[None]:
+        # whenConnected() may have been called before startService()
+        s.cancelConnectWaiters()
         return succeed(None)
 
     @pep614(Connecting.upon(_Client.stop).to(Disconnecting))
